@@ -54,7 +54,9 @@ def execute(rid):
     if rid == "pep_parse_opts":
         atoms = build.build_peptide(["TYR", "ASN", "GLU", "CYS"])
         atoms.append(build.water((2.0, 7.0, 5.0), 100))
-        meta["extra_outputs"] = ["m.pdb", "a.in"]
+        # the APBS input names the scratch path of the PQR file, which differs
+        # per process by construction: only the PDB output is compared
+        meta["extra_outputs"] = ["m.pdb"]
         return pipeline.run(build.pdb_text(atoms), [
             "--ff=PARSE", "--neutraln", "--whitespace", "--keep-chain",
             "--ffout=CHARMM", "--pdb-output=@out:m.pdb",
